@@ -269,6 +269,11 @@ pub struct ArgCase {
     pub spelling: Vec<u8>,
     /// 0 none, 1 identical exception, 2 exception differing by one space, 3 blanket
     pub exception: u8,
+    /// where rule and exception are declared relative to the page: 0 same host; 1 rule on the
+    /// subdomain, exception on the parent domain; 2 rule on the host, exception on the entity
+    /// `example.*`; 3 rule on the entity, exception on the subdomain
+    #[serde(default)]
+    pub placement: u8,
 }
 impl Case for ArgCase {
     fn smaller(&self) -> Vec<Self> {
@@ -326,24 +331,33 @@ pub fn check_args(c: &ArgCase, obs: &mut Obs) -> Result<(), String> {
         return Ok(());
     }
     let inner = parts.join(", ");
-    let line = format!("example.com##+js({})", inner);
+    let (rule_loc, exc_loc, page) = match c.placement % 4 {
+        0 => ("example.com", "example.com", "https://example.com/"),
+        1 => ("www.example.com", "example.com", "https://www.example.com/"),
+        2 => ("example.com", "example.*", "https://example.com/"),
+        _ => ("example.*", "sub.example.com", "https://sub.example.com/"),
+    };
+    let line = format!("{}##+js({})", rule_loc, inner);
     if line.contains('\n') || line.contains('\r') {
         obs.exclude("line break inside a rule line");
         return Ok(());
     }
-    let mut rules = vec![line.clone(), "example.com##+js(other, keep)".to_string()];
+    let mut rules = vec![line.clone(), format!("{}##+js(other, keep)", rule_loc)];
     match c.exception {
-        1 => rules.push(format!("example.com#@#+js({})", inner)),
-        2 => rules.push(format!("example.com#@#+js({} )", inner.replacen(", ", ",  ", 1))),
-        3 => rules.push("example.com#@#+js()".to_string()),
+        1 => rules.push(format!("{}#@#+js({})", exc_loc, inner)),
+        2 => rules.push(format!("{}#@#+js({} )", exc_loc, inner.replacen(", ", ",  ", 1))),
+        3 => rules.push(format!("{}#@#+js()", exc_loc)),
         _ => {}
+    }
+    if c.placement % 4 != 0 && c.exception != 0 {
+        obs.label("exception-declared-elsewhere");
     }
     let mut e = Engine::from_rules(&rules, Default::default());
     e.use_resources(vec![
         res("fnlet.js", ResourceType::Mime(MimeType::ApplicationJavascript), "function fnlet(a, b) { /*MARK-fnlet*/ }", &[], 0),
         res("other.js", ResourceType::Mime(MimeType::ApplicationJavascript), "function other(a) { /*MARK-other*/ }", &[], 0),
     ]);
-    let js = e.url_cosmetic_resources("https://example.com/").injected_script;
+    let js = e.url_cosmetic_resources(page).injected_script;
     obs.inner_evals += 1;
     let call: Vec<&str> = js.lines().filter(|l| l.starts_with("fnlet(")).collect();
     let other_present = js.lines().any(|l| l.starts_with("other("));
@@ -425,11 +439,11 @@ fn decode_args(t: &mut Tape) -> ArgCase {
         values.push(v);
         spelling.push(sp);
     }
-    ArgCase { values, spelling, exception: [0u8, 0, 0, 0, 1, 2, 3][t.pick(7)] }
+    ArgCase { values, spelling, exception: [0u8, 0, 0, 0, 1, 2, 3][t.pick(7)], placement: if t.chance(1, 2) { 0 } else { t.pick(4) as u8 } }
 }
 
 pub fn check(ctx: &mut Ctx) {
-    ctx.rule = "perm: EXHAUSTIVE 256 x 256 (resource permission, list permission) pairs at engine level: a scriptlet is injected iff its bits are a subset of the list's, and a permissioned resource is never a redirect; graphs: 1-8 resources (function-style / fn / template, permissions on inner nodes, 0-3 dependencies each incl. cycles and missing names, duplicate names; 1 case in 30 a dependency chain of 10-129 nodes, 1 in 30 a wide page where one scriptlet pulls in 30-129 helpers and a second scriptlet from another list shares one helper that leads to a permissioned resource) and 1-3 requests from lists with different permissions: every resource body in the output must be justified by a request allowed to use it, and a scriptlet is invoked iff its whole dependency closure is permitted for the lists requesting it; args: 0-4 argument values built from quotes, backslashes, backticks, '$' sequences, braces, parentheses, control characters, U+2028/2029, non-ASCII, '</script>', comment markers, rendered bare / quoted with a quote character absent from the value / bare with '\\,' escapes; the emitted call's argument list must parse (as JSON string literals) back to exactly the values; identical exception removes the injection, a one-space-different one does not, a blanket exception removes all. Non-trivial: perm pair with neither side 0 or 255; graph with a permissioned or dependent node; argument needing escaping or removed by an exception.".into();
+    ctx.rule = "perm: EXHAUSTIVE 256 x 256 (resource permission, list permission) pairs at engine level: a scriptlet is injected iff its bits are a subset of the list's, and a permissioned resource is never a redirect; graphs: 1-8 resources (function-style / fn / template, permissions on inner nodes, 0-3 dependencies each incl. cycles and missing names, duplicate names; 1 case in 30 a dependency chain of 10-129 nodes, 1 in 30 a wide page where one scriptlet pulls in 30-129 helpers and a second scriptlet from another list shares one helper that leads to a permissioned resource) and 1-3 requests from lists with different permissions: every resource body in the output must be justified by a request allowed to use it, and a scriptlet is invoked iff its whole dependency closure is permitted for the lists requesting it; args: 0-4 argument values built from quotes, backslashes, backticks, '$' sequences, braces, parentheses, control characters, U+2028/2029, non-ASCII, '</script>', comment markers, rendered bare / quoted with a quote character absent from the value / bare with '\\,' escapes; the emitted call's argument list must parse (as JSON string literals) back to exactly the values; identical exception removes the injection, a one-space-different one does not, a blanket exception removes all - wherever the exception is declared (same host, parent domain of the rule's subdomain, entity of the rule's host, subdomain under the rule's entity). Non-trivial: perm pair with neither side 0 or 255; graph with a permissioned or dependent node; argument needing escaping or removed by an exception.".into();
     ctx.assumptions = vec![
         "argument values are rendered only in spellings whose meaning is documented and pinned by the library's own quoted_scriptlet_args test; values expressible in none are skipped and counted".into(),
         "rule lines cannot contain line breaks".into(),
